@@ -164,6 +164,13 @@ def report(prop, tier, seed, results, extra, kf_entries, a, t0):
                 # does not hold means the subject left the verifiable subset: undecided, never a violation
                 ob["note"] = (ob.get("note") or "") + " [modelling limit reached]"
                 unknown.append((r.unit_id, ob))
+            elif ob["status"] == "failed" and ob["kind"] == "inv" and not (ob.get("replay") or {}).get("confirmed"):
+                # the loop invariant supplied by the CONTRACT is not inductive for this code and no failing input was found on
+                # the real code: the invariant (an artefact of the proof, not part of the property) does not fit - e.g. after a
+                # behaviour-preserving restructuring of the loop.  Undecided, not a violation; a real defect in the loop is
+                # reported through the native replay / concrete search (confirmed) or through a failed postcondition.
+                ob["note"] = (ob.get("note") or "") + " [contract invariant does not fit this loop; no failing input on the real code]"
+                unknown.append((r.unit_id, ob))
             elif ob["status"] == "failed":
                 failed.append((r.unit_id, ob))
             else:
